@@ -122,7 +122,9 @@ def main(seed, ncases, driver, out):
             rnd = case_rnd(seed, len(enum) + _k)
             spec = rnd.choice([[('b', 'a')], [('f', 'c'), ('f', 'd')], [('f', 'c'), ('f', 'd'), ('f', 'e')], [('b', 'a'), ('f', 'c')],
                                [('l', 'a')], [('s', 's'), ('f', 'c')], [('b', 'a'), ('b', 'b')], [('s', 's'), ('s', 't')],
-                               [('l', 'p'), ('b', 'a'), ('f', 'c'), ('f', 'd')], [('b', 'a'), ('s', 's')]])
+                               [('l', 'p'), ('b', 'a'), ('f', 'c'), ('f', 'd')], [('b', 'a'), ('s', 's')],
+                               # modes of different kinds that carry the same label (a phonon b_k and an electron c_k, a cavity q and a qubit q)
+                               [('b', 'k'), ('f', 'k')], [('b', 'q'), ('s', 'q')], [('l', 'a'), ('b', 'a'), ('f', 'a')], [('s', 'k'), ('f', 'k')]])
             spec = sorted(spec, key=lambda m: (ORDER[m[0]], m[1]))
             yield spec, (gen_word_pair(rnd, len(spec)) if rnd.random() < 0.5 else gen_expr(rnd, len(spec), 3)), "random"
     for c, (spec, e, stratum) in enumerate(case_stream()):
